@@ -21,7 +21,8 @@ from ..term import Op, Sym, walk
 MOD = "pfhedge.nn.modules.bs."
 
 
-def check(ctx, run):
+def _search_rules(ctx, run):
+    """R1-R3: the search itself"""
     prog, interp = ctx.prog, ctx.interp
     run.trusted += ["a bracket with fn(lower) <= target <= fn(upper) for a continuous monotone fn contains a root; halving preserves it"]
     bis = prog.functions.get("pfhedge._utils.bisect.bisect")
@@ -127,6 +128,14 @@ def check(ctx, run):
         run.fail(Finding("C19.R2", bis.qualname, "bisect(mf, -target, lower, upper, precision=precision, max_iter=max_iter) when fn(lower) > fn(upper)", "a decreasing function is not reduced to the increasing case", file=str(prog.modules[bis.module].path), line=bis.node.lineno))
     TM.check_recursion(ctx, run, "C19.R2", bis, dict(fn=fn, target=tg, lower=lo, upper=hi))
     TM.check_while_bounded(prog, run, "C19.R3")
+
+
+def _wiring_rules(ctx, run):
+    """R4-R5: what find_implied_volatility and the modules hand to the search"""
+    prog, interp = ctx.prog, ctx.interp
+    bis = prog.functions.get("pfhedge._utils.bisect.bisect")
+    if bis is None:
+        raise AnalysisError("anchor vanished: bisect")
     # ---- R4 wiring
     fiv = prog.functions.get("pfhedge._utils.bisect.find_implied_volatility")
     if fiv is None:
@@ -135,7 +144,37 @@ def check(ctx, run):
     ivlo, ivhi = W.tensor("iv_lower"), W.tensor("iv_upper")
     res = interp.explore(fiv, [pr, W.tensor("price")], dict(lower=ivlo, upper=ivhi, precision=W.fl("precision"), max_iter=W.integer("max_iter"), log_moneyness=W.tensor("s")), max_paths=50)
     calls = [e for r2 in res for e in r2["events"] if e["kind"] == "call" and e["callee"] == bis.qualname and e["fn"].endswith("find_implied_volatility")]
-    ok = bool(calls)
+    # judged on the search that is actually run, however it is reached (bisect itself, a private helper, a generator of brackets): on every
+    # path with a search loop the exit test compares the width of the bracket with the CALLER's precision, the bracket starts at the caller's
+    # bounds and the iteration budget is the caller's max_iter
+    ok, why_w = True, []
+    looping = [r2 for r2 in res if not r2["raises"] and any(e["kind"] == "loop_begin" for e in r2["events"])]
+    if not looping:
+        raise AnalysisError("find_implied_volatility: no path with a search loop")
+    for r2 in looping:
+        conds = [e["cond"] for e in r2["events"] if e["kind"] in ("while_test", "guard")] + [c_ for c_, _, _ in r2["cond"]]
+        widths, budget = [], False
+        for c_ in conds:
+            budget = budget or any(x_ == W.integer("max_iter") for x_ in walk(c_))
+            while isinstance(c_, Op) and c_.op in ("not", "all", "any", "py_bool") and c_.args:
+                c_ = c_.args[0]
+            if isinstance(c_, Op) and c_.op in ("gt", "ge", "lt", "le") and len(c_.args) == 2:
+                for w_, p_ in (c_.args, c_.args[::-1]):
+                    if isinstance(w_, Op) and w_.op in ("max", "amax") and not isinstance(p_, Op):
+                        widths.append(p_)
+        for e in r2["events"]:
+            if e["kind"] == "loop_begin":
+                budget = budget or any(x_ == W.integer("max_iter") for x_ in walk(list(e["over"])))
+        inits = {_strip(b_) for e in r2["events"] if e["kind"] == "loop_begin" for _, b_ in e.get("carried", [])}
+        if not widths:
+            why_w.append("no exit test on the width of the bracket")
+        elif any(p_ != W.fl("precision") for p_ in widths):
+            why_w.append(f"the search stops at precision {[str(p_) for p_ in widths if p_ != W.fl('precision')][0]}, not at the requested one")
+        if not {ivlo, ivhi} <= inits:
+            why_w.append("the bracket does not start at the requested lower / upper bound")
+        if not budget:
+            why_w.append("the iteration budget is not the requested max_iter")
+    ok = not why_w
     for e in calls[:1]:
         a = e["args"]
         kw_ = dict(e["kwargs"])
@@ -162,7 +201,7 @@ def check(ctx, run):
     ok = ok and bool(pc) and all("volatility" in e["kwargs"] and e["kwargs"].get("log_moneyness") == W.tensor("s") for e in pc)
     run.oblige("C19.R4", "find_implied_volatility: bisect(pricer(volatility=., **params), price, lower, upper, precision, max_iter)", ok, "")
     if not ok:
-        run.fail(Finding("C19.R4", fiv.qualname, "bisect(fn, price, lower.to(price), upper.to(price), precision, max_iter) with fn(v) = pricer(volatility=v, **params)", "implied volatility wiring", file=str(prog.modules[fiv.module].path), line=fiv.node.lineno))
+        run.fail(Finding("C19.R4", fiv.qualname, ("; ".join(sorted(set(why_w))) + "; " if why_w else "") + "expected bisect(fn, price, lower.to(price), upper.to(price), precision, max_iter) with fn(v) = pricer(volatility=v, **params)", "implied volatility wiring", file=str(prog.modules[fiv.module].path), line=fiv.node.lineno))
     for mq in ("european.BSEuropeanOption", "european_binary.BSEuropeanBinaryOption", "american_binary.BSAmericanBinaryOption", "lookback.BSLookbackOption"):
         cq = MOD + mq
         iv = prog.lookup_method(cq, "implied_volatility")
@@ -242,6 +281,17 @@ def check(ctx, run):
     if bad:
         fi = prog.functions[B.F + "bs_european_vega"]
         run.fail(Finding("C19.R5", fi.qualname, "; ".join(bad), "the European price is not shown monotone in volatility", file=str(prog.modules[fi.module].path), line=fi.node.lineno))
+
+
+def check(ctx, run):
+    deferred = None
+    try:
+        _search_rules(ctx, run)
+    except AnalysisError as ex:   # the wiring is judged all the same; the incomplete analysis of the search is reported at the end
+        deferred = ex
+    _wiring_rules(ctx, run)
+    if deferred is not None:
+        raise deferred
 
 
 FLIP = {"lt": "gt", "le": "ge", "gt": "lt", "ge": "le"}
